@@ -250,7 +250,7 @@ def rule_arith(ctx, db):
             ctx.ob("R5", "justified:%s:%s#%d" % (root, what, per[k]), j is not None,
                    "%s at line %s: %s" % (what, ln, j or "nothing establishes that the subtrahend / index bound cannot exceed the "
                                           "minuend / slice length"), f)
-    ctx.floor("R5", "checked subtractions / open-ended indexes in compio-buf and the pool buffer", n, 15)
+    ctx.floor("R5", "checked subtractions / open-ended indexes in compio-buf and the pool buffer", n, 13)
 
 
 def rules_all(ctx, db):
